@@ -13,7 +13,7 @@
     `execCmd`, `evalIn`, `set`, `push`, `enter`, … — every expression the walk evaluates has all its variable
     references (`exprKeys`, except `$ij` and the names in the exemption set `X`) bound in the scope it is
     evaluated in.  Nothing in Model/Eval is instrumented: the predicates follow the clauses of `execCmd` one
-    by one and put `HitKeys` where the clause calls `evalIn` / `evalList` / `matchCase` / `evalPrint`
+    by one and put `HitExprs` where the clause calls `evalIn` / `evalList` / `matchCase` / `evalPrint`
     (expression evaluation changes neither the scope nor the heap, `evalIn` only advances `next`; so the
     keys of one command's own expressions are stated at the heap the command starts from or — where a {let},
     a param or a loop variable has been bound in between — at the state the model is in at that point).
@@ -29,6 +29,12 @@
             the declared params of the callee (the checker does not look into data).
 
     Names bound by {let} / {foreach} / {for} are never exempt, in any template, however it was entered.
+
+  * the loop functions: `index($x)` / `isFirst($x)` look up `x.index`, `isLast($x)` also `x.lastIndex`
+    (`applyLoopFunc`, on the key of the first argument: `helperKeys`).  With the checker rule R_loopfn
+    (`Spec.LoopArgOk`, /repo e0343b6) `x` is the variable of an enclosing loop, and `forLoop` binds the
+    two helpers with it in one frame (`Inv.helpers`): these lookups are part of every expression position
+    of the Safe predicates (`HitExprs` = `HitKeys` ∧ `HitHelpers`) and never exempt.
     `execute_never_misses`: for `execute g name data` with `data` binding every declared param of
     the entry template (optional ones too) the exemption set of the entry template is empty.
     `unpassed_optional_param_misses` (example): an optional param the caller did not pass does miss — the
@@ -149,6 +155,30 @@ variable (g : GEnv) (esc : Bool) (call : Registry.Tmpl → Run)
 def HitKeys (heap : List Cell) (ctx : Scope) (ks : List Bytes) : Prop :=
   ∀ k ∈ ks, k ≠ ijName → X k = false → misses heap ctx k = false
 
+/-- what `applyLoopFunc` is given: the key of the first argument, when that is a reference (`evalE`) -/
+def loopKeyOf : ExprList → Option Bytes
+  | .cons (.dataRef _ key _) _ => some key
+  | _ => none
+
+/-- the names the loop functions look up (funcs.go): `index` and `isFirst` the loop's `<x>.index`,
+    `isLast` also `<x>.lastIndex` -/
+def helperKeys : List LoopOcc → List Bytes
+  | [] => []
+  | (name, args) :: r =>
+    (match loopKeyOf args with
+     | none => []
+     | some k =>
+       if name == fIsLast then [k ++ sIndexSuffix, k ++ sLastIndexSuffix] else [k ++ sIndexSuffix])
+      ++ helperKeys r
+
+/-- every helper name that the loop functions among `ls` look up is bound in `ctx` (no exemptions) -/
+def HitHelpers (heap : List Cell) (ctx : Scope) (ls : List LoopOcc) : Prop :=
+  ∀ k ∈ helperKeys ls, misses heap ctx k = false
+
+/-- an expression position: its references `ks` and the helper names of its loop functions `ls` -/
+def HitExprs (heap : List Cell) (ctx : Scope) (ks : List Bytes) (ls : List LoopOcc) : Prop :=
+  HitKeys X heap ctx ks ∧ HitHelpers heap ctx ls
+
 /-- walkBlock: the body runs on the pushed scope -/
 def SafeWalk (sbody : Scope → St → Prop) (ctx : Scope) (st : St) : Prop :=
   sbody (push ctx st).1 (push ctx st).2
@@ -200,7 +230,7 @@ def SafeMParts (phs : List (Nat × Bytes × Run)) (sphs : List (Nat × Bytes × 
     match findPlural body vn with
     | none => True
     | some ve =>
-      HitKeys X st.heap ctx (exprKeys ve) ∧
+      HitExprs X st.heap ctx (exprKeys ve) (exprLoops ve) ∧
       match evalIn g ve ctx st with
       | some (.int i, st1) =>
         match g.msgs with
@@ -226,7 +256,7 @@ mutual
 def SafeCmd : Cmd → Scope → St → Prop
   | .rawText .., _, _ => True
   -- evalPrint: the argument, then the arguments of the directives left to right
-  | .print _ arg dirs, ctx, st => HitKeys X st.heap ctx (exprKeys arg ++ dirsKeys dirs)
+  | .print _ arg dirs, ctx, st => HitExprs X st.heap ctx (exprKeys arg ++ dirsKeys dirs) (exprLoops arg ++ dirsLoops dirs)
   -- evalMsg: the body is a block of its own; without a bundle, or without a translation of this message, its
   -- parts are walked, else the translation's parts are (`evalMsgParts`)
   | .msg _ id _ _ _ body, ctx, st =>
@@ -237,12 +267,12 @@ def SafeCmd : Cmd → Scope → St → Prop
         match b.message id with
         | none => SafeParts body ctx1 st1
         | some parts => SafeMParts g X (phAll g esc call body 0) (SafePhAll body 0) body parts ctx1 st1) ctx st
-  | .css _ e _, ctx, st => HitKeys X st.heap ctx (optKeys e)
+  | .css _ e _, ctx, st => HitExprs X st.heap ctx (optKeys e) (optLoops e)
   | .debugger _, _, _ => True
   | .log _ body, ctx, st => SafeRender (SafeBody body) ctx st
   | .ifc _ conds, ctx, st => SafeConds conds ctx st
   | .forc _ var list body ifEmpty, ctx, st =>
-    HitKeys X st.heap ctx (exprKeys list) ∧
+    HitExprs X st.heap ctx (exprKeys list) (exprLoops list) ∧
     match evalIn g list ctx st with
     | some (.list _ xs, st1) =>
       if xs.isEmpty then
@@ -252,7 +282,7 @@ def SafeCmd : Cmd → Scope → St → Prop
       else SafeLoop (execBody g esc call body) (SafeBody body) var ((xs.length : Int) - 1) xs 0 ctx st1
     | _ => True
   | .switch _ value cases, ctx, st =>
-    HitKeys X st.heap ctx (exprKeys value) ∧
+    HitExprs X st.heap ctx (exprKeys value) (exprLoops value) ∧
     match evalIn g value ctx st with
     | none => True
     | some (sv, st1) => SafeCases cases none sv ctx st1
@@ -261,7 +291,7 @@ def SafeCmd : Cmd → Scope → St → Prop
     match Registry.lookup g.reg name with
     | none => True
     | some callee =>
-      HitKeys X st.heap ctx (optKeys data) ∧
+      HitExprs X st.heap ctx (optKeys data) (optLoops data) ∧
       match callData g allData data ctx st with
       | none => True
       | some (cd, st1) =>
@@ -270,7 +300,7 @@ def SafeCmd : Cmd → Scope → St → Prop
           match enter cd (execParams g esc call params cd ctx st1).st with
           | none => True
           | some (cctx, st2) => scall callee (allData || data.isSome) cctx st2)
-  | .letValue _ _ e, ctx, st => HitKeys X st.heap ctx (exprKeys e)
+  | .letValue _ _ e, ctx, st => HitExprs X st.heap ctx (exprKeys e) (exprLoops e)
   | .letContent _ _ body, ctx, st => SafeRender (SafeBody body) ctx st
   | .headerParam .., _, _ => True
   | .namespace .., _, _ => True
@@ -293,7 +323,7 @@ def SafeConds : CondList → Scope → St → Prop
     match cond with
     | none => SafeWalk (SafeBody body) ctx st
     | some c =>
-      HitKeys X st.heap ctx (exprKeys c) ∧
+      HitExprs X st.heap ctx (exprKeys c) (exprLoops c) ∧
       match evalIn g c ctx st with
       | none => True
       | some (v, st1) => if v.truthy then SafeWalk (SafeBody body) ctx st1 else SafeConds rest ctx st1
@@ -304,7 +334,7 @@ def SafeCases : CaseList → Option (Scope → St → Prop) → Value → Scope 
     | some s => s ctx st
     | none => True
   | .cons _ values body rest, sd, sv, ctx, st =>
-    HitKeys X st.heap ctx (listKeys values) ∧
+    HitExprs X st.heap ctx (listKeys values) (listLoops values) ∧
     match matchCase g ctx sv values st with
     | none => True
     | some (true, st1) => SafeWalk (SafeBody body) ctx st1
@@ -313,7 +343,7 @@ def SafeCases : CaseList → Option (Scope → St → Prop) → Value → Scope 
 def SafeParams : ParamList → Scope → Scope → St → Prop
   | .nil, _, _, _ => True
   | .value _ key e rest, cd, ctx, st =>
-    HitKeys X st.heap ctx (exprKeys e) ∧
+    HitExprs X st.heap ctx (exprKeys e) (exprLoops e) ∧
     match evalIn g e ctx st with
     | none => True
     | some (v, st1) =>
@@ -336,7 +366,7 @@ def SafeParts : MsgParts → Scope → St → Prop
     ((execPh g esc call body ctx st).cls = .ok →
       SafeParts rest (execPh g esc call body ctx st).ctx (execPh g esc call body ctx st).st)
   | .plural _ _ value cases _ dflt rest, ctx, st =>
-    HitKeys X st.heap ctx (exprKeys value) ∧
+    HitExprs X st.heap ctx (exprKeys value) (exprLoops value) ∧
     match evalIn g value ctx st with
     | some (.int i, st1) =>
       SafePl cases (SafeParts dflt) i.toInt ctx st1 ∧
@@ -385,12 +415,15 @@ def SafeTmpl (g : GEnv) : Nat → Registry.Tmpl → Bool → Scope → St → Pr
 structure Inv (X : Bytes → Bool) (params : List Bytes) (env : Env) (ctx : Scope) (st : St) : Prop where
   vars : ∀ b ∈ env, misses st.heap ctx b.name = false
   pars : ∀ p ∈ params, X p = false → misses st.heap ctx p = false
+  /-- a loop variable comes with its helpers `<x>.index`, `<x>.lastIndex` (`forLoop` binds the three in one frame) -/
+  helpers : ∀ b ∈ env, b.isLet = false →
+    misses st.heap ctx (b.name ++ sIndexSuffix) = false ∧ misses st.heap ctx (b.name ++ sLastIndexSuffix) = false
 
 section
 variable {X : Bytes → Bool} {params : List Bytes}
 
 /-- R1 (`KeysBound`) + the invariant: the lookups hit -/
-theorem hit_of_bound {env : Env} {ctx : Scope} {st : St} {ks : List Bytes}
+theorem hitKeys_of_bound {env : Env} {ctx : Scope} {st : St} {ks : List Bytes}
     (hb : KeysBound params env ks) (hi : Inv X params env ctx st) : HitKeys X st.heap ctx ks := by
   intro k hk hij hx
   obtain ⟨t, ht⟩ := hb k hk
@@ -399,29 +432,78 @@ theorem hit_of_bound {env : Env} {ctx : Scope} {st : St} {ks : List Bytes}
   | var i b _ hb' hn _ => rw [← hn]; exact hi.vars b (List.mem_of_getElem? hb')
   | param _ _ hp => exact hi.pars k hp hx
 
+/-- an occurrence the checker accepted (R_loopfn) is applied to what the interpreter takes the key of -/
+theorem loopKeyOf_of_loopArg {args : ExprList} {x : Bytes} (h : Check.loopArg args = some x) :
+    loopKeyOf args = some x := by
+  unfold Check.loopArg at h
+  split at h
+  · simpa [loopKeyOf] using h
+  · cases h
+
+/-- R_loopfn (`LoopsOk`) + the invariant: the helper names are bound -/
+theorem hitHelpers_of_ok {env : Env} {ctx : Scope} {st : St} : ∀ {ls : List LoopOcc},
+    LoopsOk env ls → Inv X params env ctx st → HitHelpers st.heap ctx ls
+  | [], _, _ => by intro k hk; simp [helperKeys] at hk
+  | (name, args) :: r, hl, hi => by
+    intro k hk
+    simp only [helperKeys, List.mem_append] at hk
+    rcases hk with hk | hk
+    · obtain ⟨x, hx, b, hb, hn, hlet⟩ := hl (name, args) List.mem_cons_self
+      rw [loopKeyOf_of_loopArg hx] at hk
+      have hh := hi.helpers b hb hlet
+      rw [hn] at hh
+      simp only at hk
+      split at hk
+      · simp only [List.mem_cons, List.not_mem_nil, or_false] at hk
+        rcases hk with rfl | rfl
+        · exact hh.1
+        · exact hh.2
+      · simp only [List.mem_singleton] at hk
+        rw [hk]; exact hh.1
+    · exact hitHelpers_of_ok (ls := r) (fun o ho => hl o (List.mem_cons_of_mem _ ho)) hi k hk
+
+/-- R1 and R_loopfn (`ExprsOk`) + the invariant: every lookup of the expression position hits -/
+theorem hit_of_bound {env : Env} {ctx : Scope} {st : St} {ks : List Bytes} {ls : List LoopOcc}
+    (hb : ExprsOk params env ks ls) (hi : Inv X params env ctx st) : HitExprs X st.heap ctx ks ls :=
+  ⟨hitKeys_of_bound hb.1 hi, hitHelpers_of_ok hb.2 hi⟩
+
 theorem Inv.of_ext {env : Env} {ctx : Scope} {st st' : St} {W : Nat → Prop} (hi : Inv X params env ctx st)
     (e : Ext W st st') (hok : ScopeOk ctx st) (hW : ∀ f ∈ ctx, ¬ W f.ref) : Inv X params env ctx st' :=
   ⟨fun b hb => by rw [misses_ext_W e ctx hok hW]; exact hi.vars b hb,
-   fun p hp hx => by rw [misses_ext_W e ctx hok hW]; exact hi.pars p hp hx⟩
+   fun p hp hx => by rw [misses_ext_W e ctx hok hW]; exact hi.pars p hp hx,
+   fun b hb hl => by rw [misses_ext_W e ctx hok hW, misses_ext_W e ctx hok hW]; exact hi.helpers b hb hl⟩
 
 theorem Inv.of_heap {env : Env} {ctx : Scope} {st st' : St} (hi : Inv X params env ctx st)
     (h : st'.heap = st.heap) : Inv X params env ctx st' :=
-  ⟨fun b hb => by rw [h]; exact hi.vars b hb, fun p hp hx => by rw [h]; exact hi.pars p hp hx⟩
+  ⟨fun b hb => by rw [h]; exact hi.vars b hb, fun p hp hx => by rw [h]; exact hi.pars p hp hx,
+   fun b hb hl => by rw [h]; exact hi.helpers b hb hl⟩
 
 theorem Inv.weaken {env env' : Env} {ctx : Scope} {st : St} (hi : Inv X params env ctx st)
     (h : ∀ b ∈ env', b ∈ env) : Inv X params env' ctx st :=
-  ⟨fun b hb => hi.vars b (h b hb), hi.pars⟩
+  ⟨fun b hb => hi.vars b (h b hb), hi.pars, fun b hb hl => hi.helpers b (h b hb) hl⟩
 
 theorem Inv.pushed {env : Env} {ctx : Scope} {st : St} (hi : Inv X params env ctx st) (hok : ScopeOk ctx st) :
     Inv X params env (push ctx st).1 (push ctx st).2 :=
   ⟨fun b hb => by rw [misses_push ctx st hok]; exact hi.vars b hb,
-   fun p hp hx => by rw [misses_push ctx st hok]; exact hi.pars p hp hx⟩
+   fun p hp hx => by rw [misses_push ctx st hok]; exact hi.pars p hp hx,
+   fun b hb hl => by rw [misses_push ctx st hok, misses_push ctx st hok]; exact hi.helpers b hb hl⟩
 
-/-- a binding made in the top frame: the environment grows by that name -/
-theorem Inv.set {env : Env} {ctx : Scope} {st st2 : St} {name : Bytes} {v : Value} {isLet : Bool}
+/-- a binding made in the top frame unbinds nothing -/
+theorem misses_set_mono {ctx : Scope} {st st2 : St} {name : Bytes} {v : Value} (hown : Own ctx st)
+    (hs : Eval.set ctx st name v = some st2) {k : Bytes} (h : misses st.heap ctx k = false) :
+    misses st2.heap ctx k = false := by
+  rw [misses_set hown hs]; split <;> simp [h]
+
+/-- a binding made in the top frame: the environment grows by that name (as a {let}: a loop variable
+    comes with its helpers, see `loop_safe`) -/
+theorem Inv.set {env : Env} {ctx : Scope} {st st2 : St} {name : Bytes} {v : Value}
     (hi : Inv X params env ctx st) (hown : Own ctx st) (hs : Eval.set ctx st name v = some st2) :
-    Inv X params (env ++ [{ name := name, isLet := isLet }]) ctx st2 := by
-  refine ⟨fun b hb => ?_, fun p hp hx => ?_⟩
+    Inv X params (env ++ [{ name := name, isLet := true }]) ctx st2 := by
+  refine ⟨fun b hb => ?_, fun p hp hx => ?_, fun b hb hl => ?_⟩
+  rotate_right
+  · rcases List.mem_append.mp hb with h | h
+    · exact ⟨misses_set_mono hown hs (hi.helpers b h hl).1, misses_set_mono hown hs (hi.helpers b h hl).2⟩
+    · simp only [List.mem_singleton] at h; subst h; cases hl
   · rw [misses_set hown hs]
     split
     · rfl
@@ -499,28 +581,33 @@ theorem loop_safe (body : Run) (hgb : GoodRun body) (sbody : Scope → St → Pr
       simp only
       have e2 := set_ext hown1 h2
       have own2 := hown1.ext e2
-      have hi2 := hi1.set (isLet := false) hown1 h2
+      have hi2 := hi1.set hown1 h2
       cases h3 : Eval.set ctx1 st2 var x with
       | none => simp
       | some st3 =>
         simp only
         have e3 := set_ext own2 h3
         have own3 := own2.ext e3
-        have hi3 := hi2.set (isLet := false) own2 h3
+        have hi3 := hi2.set own2 h3
         cases h4 : Eval.set ctx1 st3 (var ++ sIndexSuffix) (.int (Int64.ofInt i)) with
         | none => simp
         | some st4 =>
           simp only
           have e4 := set_ext own3 h4
           have own4 := own3.ext e4
-          have hi4 := hi3.set (isLet := false) own3 h4
+          have hi4 := hi3.set own3 h4
           have hok4 : ScopeOk ctx1 st4 := scopeOk_ext (scopeOk_ext (scopeOk_ext hok1 e2) e3) e4
-          have hiB : Inv X params (env ++ [{ name := var, isLet := false }]) ctx1 st4 :=
-            hi4.weaken (by
-              intro b hb'
-              rcases List.mem_append.mp hb' with h | h
-              · simp [h]
-              · simp only [List.mem_singleton] at h; subst h; simp)
+          have hiB : Inv X params (env ++ [{ name := var, isLet := false }]) ctx1 st4 := by
+            have hvar := hi4.vars { name := var, isLet := true } (by simp)
+            have hidx := hi4.vars { name := var ++ sIndexSuffix, isLet := true } (by simp)
+            have hlast := hi4.vars { name := var ++ sLastIndexSuffix, isLet := true } (by simp)
+            refine ⟨fun b hb' => ?_, hi4.pars, fun b hb' hl => ?_⟩
+            · rcases List.mem_append.mp hb' with h | h
+              · exact hi4.vars b (by simp [h])
+              · simp only [List.mem_singleton] at h; subst h; exact hvar
+            · rcases List.mem_append.mp hb' with h | h
+              · exact hi4.helpers b (by simp [h]) hl
+              · simp only [List.mem_singleton] at h; subst h; exact ⟨hidx, hlast⟩
           refine ⟨hb _ _ hiB own4 hok4, fun hcls => ?_⟩
           have hg := hgb ctx1 st4 own4
           rw [hg.ctx_eq hcls, hctx1]
@@ -805,7 +892,7 @@ theorem pick_safe (env : Env) (name : Bytes) {l : List (Nat × Bytes × Run)} {m
 
 /-- the value of a plural variable of an accepted message has its references bound (rule R1) -/
 theorem findPlural_ok (reg : List Check.Template) (env : Env) : ∀ (body : MsgParts), OkParts reg params env body →
-    ∀ n ve, findPlural body n = some ve → KeysBound params env (exprKeys ve)
+    ∀ n ve, findPlural body n = some ve → ExprsOk params env (exprKeys ve) (exprLoops ve)
   | .nil, _, _, _, h => by simp [findPlural] at h
   | .text _ _ r, hk, n, ve, h => by
     rw [findPlural] at h; rw [OkParts] at hk; exact findPlural_ok reg env r hk n ve h
@@ -1314,7 +1401,7 @@ theorem render_never_misses (g : GEnv) (hc : Check.check (Registry.toCheck g.reg
     have hvt := hvalid _ (mem_toCheck ht)
     refine body_safe g (escapeOf t) (runTmpl g n) (runTmpl_good g n) (SafeTmpl g n) (exemptOf t vd cctx st)
       (t.params.map (·.name)) (fun callee vd' cctx' st2 hm ho hk hp' => ih callee hm vd' cctx' st2 ho hk hp')
-      t.body [] cctx (atNode st t.pos) hvt.1 ⟨fun b hb => (by simp at hb), ?_⟩ (own_heap hown rfl) hok
+      t.body [] cctx (atNode st t.pos) hvt.1 ⟨fun b hb => (by simp at hb), ?_, fun b hb => (by simp at hb)⟩ (own_heap hown rfl) hok
     intro p hp' hx
     obtain ⟨q, hq, rfl⟩ := List.mem_map.mp hp'
     exact hp q hq hx
@@ -1432,8 +1519,52 @@ example : ¬ SafeTmpl gBad 1 tBad false [⟨1, false⟩, ⟨0, true⟩]
   rw [SafeTmpl] at h
   simp only [tBad] at h
   rw [SafeBody, SafeCmds, SafeCmd] at h
-  have := h.1 [113] (by simp [exprKeys, accessKeys, dirsKeys]) (by decide) (by simp [exemptOf])
+  have := h.1.1 [113] (by simp [exprKeys, accessKeys, dirsKeys]) (by decide) (by simp [exemptOf])
   simp [misses, heapGet, atNode, Frame.find] at this
+
+/-! the loop functions: `{foreach $i in $x}{index($i)}{isLast($i)}{/foreach}` is accepted, renders, and is safe
+    (the lookups of `i.index` / `i.lastIndex` hit: `Inv.helpers`); `{isFirst($x)}` on the param `x` is what
+    the checker now rejects (R_loopfn, /repo e0343b6) — its lookup of `x.index` misses. -/
+
+/-- the checker's loop functions are the interpreter's -/
+example : Check.loopFn = isLoopFunc := rfl
+
+def ki : Bytes := [105]
+def tLoop : Registry.Tmpl :=
+  { name := [108], params := [⟨kx, false⟩],
+    body := .mk 1 (.cons (.forc 2 ki (.dataRef 2 kx .nil) (.mk 3 (.cons
+      (.print 4 (.func 4 fIndex (.cons (.dataRef 4 ki .nil) .nil)) []) (.cons
+      (.print 5 (.func 5 fIsLast (.cons (.dataRef 5 ki .nil) .nil)) []) .nil))) none) .nil),
+    autoescape := .unspecified, nsName := [110], nsAutoescape := .unspecified, pos := 0, file := [102],
+    text := List.replicate 8 32 }
+def gLoop : GEnv := { reg := [tLoop], globals := [], ij := none, msgs := none, tbl := [], oblig := [] }
+def dataL : Frame := [(kx, .list 7 [.str [97], .str [98]])]
+
+example : Check.check (Registry.toCheck gLoop.reg) = true := by decide +kernel
+example : (execute gLoop [108] dataL 3).cls = .ok ∧
+    (execute gLoop [108] dataL 3).chunks.flatten = [48, 102, 97, 108, 115, 101, 49, 116, 114, 117, 101] := by
+  decide +kernel
+example : SafeTmpl gLoop 3 tLoop false [⟨1, false⟩, ⟨0, true⟩]
+    { heap := [⟨dataL, true⟩, ⟨[], false⟩], out := [], next := freshBase gLoop dataL, foreign := 0 } :=
+  (execute_never_misses gLoop (by decide +kernel) [108] tLoop rfl dataL (by decide) 3).2
+
+def tLoopBad : Registry.Tmpl :=
+  { name := [99], params := [⟨kx, false⟩],
+    body := .mk 1 (.cons (.print 2 (.func 2 fIsFirst (.cons (.dataRef 2 kx .nil) .nil)) []) .nil),
+    autoescape := .unspecified, nsName := [110], nsAutoescape := .unspecified, pos := 0, file := [102], text := [] }
+def gLoopBad : GEnv := { reg := [tLoopBad], globals := [], ij := none, msgs := none, tbl := [], oblig := [] }
+
+example : Check.check (Registry.toCheck gLoopBad.reg) = false := by decide +kernel
+example : ¬ SafeTmpl gLoopBad 1 tLoopBad false [⟨1, false⟩, ⟨0, true⟩]
+    { heap := [⟨dataX, true⟩, ⟨[], false⟩], out := [], next := 2, foreign := 0 } := by
+  intro h
+  rw [SafeTmpl] at h
+  simp only [tLoopBad] at h
+  rw [SafeBody, SafeCmds, SafeCmd] at h
+  have := h.1.2 (kx ++ sIndexSuffix) (by
+    simp [helperKeys, exprLoops, exprsLoops, accessLoops, dirsLoops, Check.loopFn, fIsFirst, loopKeyOf, fIsLast])
+  revert this
+  decide
 
 /-! a {msg} through a bundle: `{msg}H{$x} and {$n}{/msg}` with the translation `[{N}|{X}]` (placeholders
     reordered), and `{msg}{plural $n}{case 1}one{default}{$n}s{/plural}{/msg}` with a plural translation; a
